@@ -52,6 +52,8 @@ pub fn configs(prop: &str, thorough: bool) -> Vec<(Cfg, Option<usize>)> {
                     c.mint_amounts = vec![0, 1, 2, 5];
                     c.grant_cap = Some(if thorough { 3 } else { 2 });
                     c.kinds = kinds(&ALL_KINDS);
+                    // C is also the chain-level migration admin of the token: no rights over anybody's tokens
+                    c.wasm_admin = Some(2);
                     // an upgrade must not move balances or the supply either
                     c.migrate_probe = *mn == "cap4";
                     out.push((c, None));
@@ -192,6 +194,8 @@ pub fn configs(prop: &str, thorough: bool) -> Vec<(Cfg, Option<usize>)> {
             {
                 // two owners that are also each other's spenders (A<->B), stranger S1 tries everything
                 let mut c = mk("C02/closed/A<->B");
+                // the stranger S1 is the chain-level migration admin of the token
+                c.wasm_admin = Some(2);
                 c.initial = vec![(0, 2), (1, 1)];
                 c.senders = vec![0, 1, 2];
                 c.recipients = vec![0, 2];
@@ -354,6 +358,7 @@ pub fn configs(prop: &str, thorough: bool) -> Vec<(Cfg, Option<usize>)> {
             let actors = vec!["A", "B", "S1", "S2"];
             {
                 let mut c = Cfg::base("C19/closed/A,B->B,S1(+migrate at every state)");
+                c.wasm_admin = Some(2);
                 c.actors = actors.clone();
                 c.props = p.clone();
                 c.initial = vec![(0, 2), (1, 2)];
